@@ -229,13 +229,13 @@ def run(ctx):
                 'within +-2 of a multiple of the fragment size; distinct by (part, class, M, L)')
     ctx.assumptions = ['several PDVs per PDU would be accepted', 'M < 7 outside the stated domain',
                        'command bytes compared with dsutils.encode(command_set) and parsed by vf/refcmd.py']
-    hi = 300 if ctx.thorough else 70
+    hi = 600 if ctx.thorough else 70
     bands = [(lo, min(lo + 14, hi)) for lo in range(7, hi + 1, 15)]
     parallel(ctx, run_grid, [{'m_lo': a, 'm_hi': b} for a, b in bands])
     run_all_classes(ctx)
     run_boundaries(ctx)
     if ctx.thorough:
-        parallel(ctx, shard_random, [{'n': 1250} for _ in range(16)])
+        parallel(ctx, shard_random, [{'n': 5000} for _ in range(16)])
     else:
         run_random(ctx, 600)
 
